@@ -78,6 +78,10 @@ class DetachedMixin(object):
 
     def _detached_op(self, name, h, mo, e, view, handles, b, c, how, strict, gone):
         P = type(h)
+        if P.__name__ != e.name and P.__name__ in self.schema.by_name:
+            # single-table inheritance: a reference whose row was never loaded kept the class of the attribute that
+            # refers to it; after the session nothing can refine it any more, the program holds a Person
+            e = self.schema.by_name[P.__name__]
         scalars = [x for x in e.scalars() if not x.is_pk]
         sets = e.sets()
         tos = e.to_ones()
